@@ -20,6 +20,19 @@ def generate(rng, tier, shard, nshards):
             base = {"sr": srn, "A": A, "sigma": sig, "L": max(L, A["n"]), "style": style}
             for fn in ("determinize", "min_det", "push", "trim", "trim_vals"):
                 yield aops.event("wop", dict(base, fn=fn), site=f"WFSA.{fn}", feat=feat, timeout=10)
+            if i % 2 == 0:
+                # two prefixes reach the same set of states with different weight ratios, and the states then split their
+                # weight differently: the residual weights of the power state matter, not only its support
+                W = [[1, 2], [1, 1], [2, 1], [1, 1]]
+                w = lambda: rng.choice(W)
+                D = {"n": 5, "I": [[0, w()]], "F": [[3, w()], [4, w()]],
+                     "arcs": [[0, "a", 1, w()], [0, "a", 2, w()], [0, "b", 1, w()], [0, "b", 2, w()],
+                              [1, "a", 3, w()], [2, "a", 3, w()], [1, "b", 4, w()], [2, "b", 3, w()], [2, "a", 4, w()]]}
+                if rng.random() < 0.5:
+                    D["I"].append([rng.choice([1, 2]), w()])
+                for fn in ("determinize", "min_det", "push"):
+                    yield aops.event("wop", {"sr": srn, "A": D, "sigma": sig, "L": 3, "fn": fn, "style": style},
+                                     site=f"WFSA.{fn}", feat="same-support-different-ratios", timeout=10)
             if i % 3 == 0:
                 # cyclic but already deterministic: the subset construction terminates
                 D = {"n": 2, "I": [[0, A["I"][0][1]]], "F": [[1, A["I"][0][1]]],
